@@ -34,6 +34,9 @@ class Clock:
         return float(self.t)
 
 
+JB_KEY = b"jwt-bearer-shared-secret-0123456789abcdef"
+
+
 class World:
     def __init__(self, model=None):
         self.model = model
@@ -44,7 +47,8 @@ class World:
         st.clients = {
             "c1": S.Client("c1", "s1", ["https://c1.example/cb"], "a b", ["authorization_code", "refresh_token", "password",
                                                                             "client_credentials", "implicit",
-                                                                            "urn:ietf:params:oauth:grant-type:device_code"],
+                                                                            "urn:ietf:params:oauth:grant-type:device_code",
+                                                                            "urn:ietf:params:oauth:grant-type:jwt-bearer"],
                            ["code", "token"], "client_secret_basic"),
             "c2": S.Client("c2", "s2", ["https://c2.example/cb"], "a", ["authorization_code", "refresh_token",
                                                                          "urn:ietf:params:oauth:grant-type:device_code"],
@@ -67,6 +71,8 @@ class World:
         DeviceEndpoint, DeviceGrant = S.make_device(st)
         srv.register_endpoint(DeviceEndpoint)
         srv.register_grant(DeviceGrant)
+
+        srv.register_grant(S.make_jwt_bearer(st, lambda client: JB_KEY))
 
         class Revocation(RevocationEndpoint):
             CLIENT_AUTH_METHODS = ["client_secret_basic"]
@@ -211,6 +217,17 @@ class World:
 
     def do_client_credentials(self, req):
         return self._token({"grant_type": "client_credentials"}, req)
+
+    def do_jwt_bearer(self, req):
+        """RFC 7523 grant: the assertion is issued by the client named in the request, for the request's user (if any); flag = expired"""
+        from authlib.jose import jwt
+        now = int(time.time())
+        claims = {"iss": req.get("client", "c1"), "aud": TOKEN_URI, "exp": now - 1000 if req.get("flag") else now + 300, "iat": now - 5}
+        if req.get("user"):
+            claims["sub"] = req["user"]
+        assertion = jwt.encode({"alg": "HS256"}, claims, JB_KEY).decode()
+        r = S.HReq("POST", TOKEN_URI, {"grant_type": "urn:ietf:params:oauth:grant-type:jwt-bearer", "assertion": assertion}, {})
+        return self._token_out(self.srv.create_token_response(r))
 
     def do_device_authorize(self, req):
         r = S.HReq("POST", "https://as.example/device", {"client_id": req.get("client", "c1"), "scope": "a"}, self._creds(req))
